@@ -155,6 +155,7 @@ func (c *Cache) Copy(src, dest string) error {
 	src = varutil.CleanPath(src)
 	dest = varutil.CleanPath(dest)
 	c.changeWrite(dest, true)
+	c.changeParent(dest)
 	// the source is read through the cache itself: a directory may live partly in the buffer and
 	// partly on the remote, and nodes with a pending remove must not be copied
 	return (fshelper.Copier{
@@ -245,6 +246,7 @@ func (c *Cache) IsDir(src string) bool {
 func (c *Cache) MkdirAll(dest string, filemode os.FileMode) error {
 	dest = varutil.CleanPath(dest)
 	c.changeMkdirAll(dest, filemode)
+	c.changeParent(dest)
 	return c.bufferFS.MkdirAll(dest, filemode)
 }
 
@@ -252,6 +254,7 @@ func (c *Cache) MkdirAll(dest string, filemode os.FileMode) error {
 func (c *Cache) Writer(dest string) (filesystem.Writer, error) {
 	dest = varutil.CleanPath(dest)
 	c.changeWrite(dest, true)
+	c.changeParent(dest)
 	return c.bufferFS.Writer(dest)
 }
 
@@ -272,6 +275,7 @@ func (c *Cache) ReadFile(src string) ([]byte, error) {
 // WriteFile write file data
 func (c *Cache) WriteFile(dest string, data []byte, perm os.FileMode) error {
 	c.changeWrite(dest, true)
+	c.changeParent(varutil.CleanPath(dest))
 	return c.bufferFS.WriteFile(dest, data, perm)
 }
 
@@ -311,6 +315,21 @@ func (c *Cache) changeWrite(dest string, value bool) {
 	c.changes.writeMU.Lock()
 	defer c.changes.writeMU.Unlock()
 	c.changes.write[dest] = value
+}
+
+// changeParent records the directory of a created node: it is created implicitly and must reach
+// the remote even if the node itself is removed again before the commit
+func (c *Cache) changeParent(dest string) {
+	parent := path.Dir(dest)
+	if parent == "." || parent == "/" {
+		return
+	}
+	c.changes.mkdirAllMU.Lock()
+	defer c.changes.mkdirAllMU.Unlock()
+	// an explicit MkdirAll of the same directory keeps its mode
+	if _, ok := c.changes.mkdirAll[parent]; !ok {
+		c.changes.mkdirAll[parent] = filesystem.DefaultUnixDirMode
+	}
 }
 
 func (c *Cache) changeRemove(dest string, value bool) {
